@@ -335,6 +335,14 @@ func (b *vhB02) build(depth, maxw int) (Stack, *vhR02) {
 			d.elems = append(d.elems, &vhE02{sub: sd})
 		}
 	}
+	if d.sym == "" && cfg.typ != list && g.next(5) == 0 {
+		// a symbol that was set once and taken back again (zero-argument form)
+		hold := cfg.opt
+		cfg.opt = 0
+		s.SetSymbol("zz")
+		s.SetSymbol()
+		cfg.opt = hold
+	}
 	cfg.opt = opt
 	return s, d
 }
